@@ -2,24 +2,18 @@ From Coq Require Import Arith.
 From Rws Require Import Str Utf8 Num Request StrLemmas Utf8Lemmas TrimLemmas.
 Open Scope N_scope.
 
-(* ---- values without ": " ---- *)
-Fixpoint nocsb (v : bytes) : bool :=
-  match v with
-  | [] => true
-  | c :: r => negb (N.eqb c 58 && match r with d :: _ => N.eqb d 32 | [] => false end) && nocsb r
-  end.
-Lemma split_aux_nocs v : forall cur, nocsb v = true ->
-  split_aux COLON_SP O cur (v ++ CRLF) = [rev cur ++ v ++ CRLF].
+(* ---- the first ": " of a line whose name has no ':' ---- *)
+Lemma split_once_aux_colon n rest : forall acc, ~ In 58 n ->
+  split_once_aux COLON_SP (n ++ COLON_SP ++ rest) acc = Some (rev acc ++ n, rest).
 Proof.
-  induction v as [|c v IH]; intros cur H.
-  - simpl. rewrite <- app_assoc. reflexivity.
-  - cbn [nocsb] in H. apply andb_prop in H as [H1 H2]. apply negb_true_iff in H1.
-    change ((c :: v) ++ CRLF) with (c :: (v ++ CRLF)). rewrite split_aux_nomatch.
-    + rewrite IH by assumption. simpl. rewrite <- app_assoc. reflexivity.
-    + unfold COLON_SP. cbn [prefixb]. rewrite (N.eqb_sym 58 c).
-      destruct (N.eqb c 58); [|reflexivity]. cbn [andb] in H1 |- *.
-      destruct v as [|d v']; cbn [app prefixb]; [reflexivity|]. rewrite (N.eqb_sym 32 d), H1. reflexivity.
+  induction n as [|x n IH]; intros acc H.
+  - cbn [app]. unfold COLON_SP. cbn [split_once_aux prefixb app]. rewrite !N.eqb_refl. cbn [andb length skipn]. rewrite app_nil_r. reflexivity.
+  - change ((x :: n) ++ COLON_SP ++ rest) with (x :: (n ++ COLON_SP ++ rest)). cbn [split_once_aux]. unfold COLON_SP at 1. cbn [prefixb].
+    destruct (N.eqb_spec 58 x) as [E|E]; [exfalso; apply H; simpl; auto|]. cbn [andb].
+    rewrite IH by (intro; apply H; simpl; auto). simpl. rewrite <- app_assoc. reflexivity.
 Qed.
+Lemma split_once_colon n rest : ~ In 58 n -> split_once (n ++ COLON_SP ++ rest) COLON_SP = Some (n, rest).
+Proof. intro H. unfold split_once. rewrite split_once_aux_colon by assumption. reflexivity. Qed.
 
 (* ---- well-formedness of a request value for the round trip ---- *)
 Definition clean (s : bytes) : Prop := ~ In 10 s /\ ~ In 13 s.
@@ -27,7 +21,6 @@ Record wf_header (h : header) : Prop := {
   wh_nocolon : ~ In 58 (hname h);
   wh_name_clean : clean (hname h);
   wh_value_clean : clean (hvalue h);
-  wh_value_nocs : nocsb (hvalue h) = true;
   wh_name_utf8 : utf8_valid (hname h) = true;
   wh_value_utf8 : utf8_valid (hvalue h) = true;
   wh_cl : hname h = content_length_name -> parse_usize (hvalue h) <> None }.
@@ -35,7 +28,7 @@ Record wf_header (h : header) : Prop := {
 Lemma header_line h rest : wf_header h ->
   split_line (gen_header h ++ rest) = (gen_header h, rest).
 Proof.
-  intros [Hc [Hn10 Hn13] [Hv10 Hv13] _ _ _ _]. unfold gen_header, CRLF.
+  intros [Hc [Hn10 Hn13] [Hv10 Hv13] _ _ _]. unfold gen_header, CRLF.
   replace ((hname h ++ COLON_SP ++ hvalue h ++ [13; 10]) ++ rest)
     with ((hname h ++ COLON_SP ++ hvalue h ++ [13]) ++ 10 :: rest)
     by (rewrite <- !app_assoc; reflexivity).
@@ -47,13 +40,13 @@ Qed.
 
 Lemma header_parse h : wf_header h -> parse_header_line (gen_header h) = h.
 Proof.
-  intros [Hc [Hn10 Hn13] [Hv10 Hv13] Hcs _ _ _]. unfold parse_header_line, gen_header.
-  rewrite split_colon by assumption. unfold split. rewrite split_aux_nocs by assumption. simpl rev. cbn [app].
+  intros [Hc [Hn10 Hn13] [Hv10 Hv13] _ _ _]. unfold parse_header_line, gen_header.
+  rewrite split_once_colon by assumption.
   rewrite truncate_clean by assumption. rewrite truncate_clean_crlf by assumption. destruct h; reflexivity.
 Qed.
 
 Lemma header_utf8 h : wf_header h -> utf8_valid (gen_header h) = true.
-Proof. intros [_ _ _ _ Hn Hv _]. unfold gen_header. rewrite utf8_valid_app by assumption.
+Proof. intros [_ _ _ Hn Hv _]. unfold gen_header. rewrite utf8_valid_app by assumption.
   rewrite (utf8_app_ascii COLON_SP) by reflexivity.
   rewrite utf8_valid_app by assumption. reflexivity. Qed.
 
@@ -128,7 +121,7 @@ Proof.
 Qed.
 
 Theorem C14_roundtrip r : wf_request r ->
-  parse_request (generate r) = Ok (mkR (method r) (uri r) (version r) (empty_header :: headers r) (body r)).
+  parse_request (generate r) = Ok (mkR (method r) (uri r) (version r) (headers r) (body r)).
 Proof.
   intro W. unfold parse_request, generate.
   destruct (wr_nolf r W) as (Hm & Hu & Hv). destruct (wr_utf8 r W) as (Um & Uu & Uv).
@@ -147,16 +140,17 @@ Proof.
   rewrite Hu8. cbn [negb]. rewrite req_line_parse by assumption.
   rewrite headers_loop_roundtrip; [reflexivity|apply (wr_headers r W)|lia].
 Qed.
-Print Assumptions C14_roundtrip.
 
-(* non-vacuity: a non-trivial request meets the hypotheses *)
+(* non-vacuity: a non-trivial request meets the hypotheses: a value with ": " and '=', a numeric Content-Length, a binary body *)
 Definition ex_req : request :=
   mkR [71;69;84] [47;120;63;97;61;49] [72;84;84;80;47;49;46;49]
-      [mkH [72;111;115;116] [108;111;99;97;108;58;56;48]; mkH content_length_name [52;50]] [13;10;0;255;10].
-Example ex_req_roundtrips : parse_request (generate ex_req)
-  = Ok (mkR (method ex_req) (uri ex_req) (version ex_req) (empty_header :: headers ex_req) (body ex_req)).
+      [mkH [72;111;115;116] [108;111;99;97;108;58;32;56;48;61]; mkH content_length_name [52;50]] [13;10;0;255;10].
+Example ex_req_roundtrips : parse_request (generate ex_req) = Ok ex_req.
 Proof. vm_compute. reflexivity. Qed.
-(* known class F2: a value containing ": " is cut *)
-Example F2_witness : exists r, parse_request (generate r) <>
-   Ok (mkR (method r) (uri r) (version r) (empty_header :: headers r) (body r)).
-Proof. exists (mkR [71;69;84] [47] [72;84;84;80;47;49;46;49] [mkH [65] [98;58;32;99]] []). vm_compute. discriminate. Qed.
+Lemma ex_req_wf : wf_request ex_req.
+Proof.
+  assert (Hh : Forall wf_header (headers ex_req)).
+  { repeat constructor; cbn; try (intuition discriminate); try reflexivity; try discriminate.
+    all: try (intro H; vm_compute; discriminate). }
+  constructor; try (vm_compute; reflexivity); try (cbn; intuition discriminate); try exact Hh.
+Qed.
